@@ -74,4 +74,11 @@ MUTANTS = [
     ("load_loses_solver_options", "rockit/ocp.py", "            return pickle.load(open(name,\"rb\"))", "            ret = pickle.load(open(name,\"rb\"))\n            ret._method._solver_options = {k:v for k,v in ret._method._solver_options.items() if 'max_iter' not in k}\n            return ret", ["C18"]),
     ("load_loses_initial_guesses", "rockit/ocp.py", "            return pickle.load(open(name,\"rb\"))", "            ret = pickle.load(open(name,\"rb\"))\n            ret._initial = type(ret._initial)()\n            return ret", ["C18"]),
     ("save_resets_grid_of_original", "rockit/ocp.py", "        self._untranscribe()\n        import pickle", "        self._untranscribe()\n        if hasattr(self._method,'time_grid') and hasattr(self._method.time_grid,'_growth_factor'): self._method.time_grid._growth_factor = 1.0\n        import pickle", ["C18"]),
+    # --- C10
+    ("set_initial_priority_order", ST, "            if priority:\n                self._initial.move_to_end(var, last=False)", "            if priority:\n                pass", ["C10"]),
+    ("set_initial_column_offset", SM, "                    value_k = value[:,k]\n                try:", "                    value_k = value[:,k-1] if k>0 else value[:,k]\n                try:", ["C10"]),
+    ("set_initial_after_transcription_ignored_for_states", ST, "            self._method.set_initial(self._augmented, self.master._method, self._initial)", "            self._method.set_initial(self._augmented, self.master._method, HashOrderedDict([(k,v) for k,v in self._initial.items() if k not in self.states or self._method.N<3]))", ["C10"]),
+    ("dc_roots_guess_at_interval_start", DC, "expr_integrator_root = ca.hcat([self.eval_at_integrator_root(stage, expr, k, i, j) for k in list(range(self.N)) for i in range(self.M) for j in range(self.degree) ])", "expr_integrator_root = ca.hcat([self.eval_at_integrator_root(stage, expr, k, i, 0) for k in list(range(self.N)) for i in range(self.M) for j in range(self.degree) ])", ["C10"]),
+    ("time_guess_uses_default_T", SM, "            T_init = opti.debug.value(self.T, opti.initial())", "            T_init = opti.debug.value(self.T, opti.initial()) if self.N!=2 else 1.0", ["C10"]),
+    ("global_var_guess_doubled", "rockit/direct_method.py", "            opti.set_initial(target, value, cache_advanced=True)", "            opti.set_initial(target, 2*value, cache_advanced=True)", []),
 ]
